@@ -156,12 +156,15 @@ Definition rs_private (info_enc : option bval) (md : metainfo) : metainfo :=
   | _ => md
   end.
 
-(* pieces are taken out before decoding and put back raw *)
+(* pieces (a byte string) are taken out before decoding and put back raw *)
 Definition rs_strip_pieces (ekvs : list (bytes * bval)) : option bval * list (bytes * bval) :=
   match bdict_get ekvs k_info with
   | Some (BDict ikvs) =>
       match bdict_get ikvs k_pieces with
-      | Some p => (Some p, bdict_put ekvs k_info (BDict (bdict_del ikvs k_pieces)))
+      | Some (BStr p) => (Some (BStr p), bdict_put ekvs k_info (BDict (bdict_del ikvs k_pieces)))
+      | Some p =>             (* not a byte string: decoded like every other value (fix 7f4b309) *)
+          if ex_read_strips_any_pieces then (Some p, bdict_put ekvs k_info (BDict (bdict_del ikvs k_pieces)))
+          else (None, ekvs)
       | None => (None, ekvs)
       end
   | _ => (None, ekvs)
